@@ -120,7 +120,8 @@ GEN_CFGS = {
 
 
 def gen_cfg_text(o):
-    o = dict({"Handles": "{}", "HandleFlags": "{}", "HBias": 0}, **o)
+    # every generated history may contain process restarts: with the index kept (1) or lost and rebuilt (0)
+    o = dict({"Handles": "{}", "HandleFlags": "{}", "HBias": 0, "RestartKinds": "{0, 1}"}, **o)
     return """CONSTANTS
   Comp = %(Comp)s
   MaxDepth = %(MaxDepth)s
@@ -129,6 +130,7 @@ def gen_cfg_text(o):
   MaxTape = 400
   Chunks = %(Chunks)s
   AttrVals = %(AttrVals)s
+  RestartKinds = %(RestartKinds)s
   Handles = %(Handles)s
   HandleFlags = %(HandleFlags)s
   MaxContent = 2
